@@ -115,7 +115,7 @@ def _judge(rep, cars, mode, rules, text_codes, exp_ok, exp_ms, nontrivial, what,
 
 def _short(o):
     def val(m):
-        return dict(m, val=text_of(m["val"]))
+        return dict(m, val=bool(m["val"][0]) if m.get("type") == "bool" and m["val"] else text_of(m["val"]))
     return json.dumps(dict(o, ms=[val(m) for m in o["ms"]]), ensure_ascii=True)[:300]
 
 
@@ -298,7 +298,7 @@ def run(rep):
     rep.bounds["replayed"] = _replay_universes(rep, cars, uni)
     rep.exhaustive = True
     # (I->S)
-    ns, nn = _random_pass(rep, cars, rng, *( (1500, 80, 150, 300) if quick else (20000, 400, 3000, 6000)))
+    ns, nn = _random_pass(rep, cars, rng, *( (1500, 80, 150, 300) if quick else (6000, 300, 3000, 6000)))
     rep.bounds["random"] = dict(string_cases=ns, number_cases=nn)
 
 
@@ -324,6 +324,17 @@ def replay(path):
     print("textX   ", _short(obs))
     print("module  ", _short(exp))
     return 0 if common.canon(obs) == common.canon(exp) and r["thm"] else 1
+
+
+def selftest():
+    """The module is not vacuous: each deviation clause of BaseTypes breaks its theorem in the (M) model."""
+    bad = 0
+    for dev, (kind, thm) in DEV_BREAKS.items():
+        r = tlc.model_check("MC_BaseTypes", env=dict(VT_KIND=kind, VT_L1=3, VT_L2=0, VT_SHARD=0, VT_NSHARDS=1,
+                                                     VT_DEV=dev), workers=1)
+        print(f"Dev={{{dev}}} universe={kind}: violated={r.violated} (expected {thm})")
+        bad += r.violated != thm
+    return 1 if bad else 0
 
 
 META = dict(
